@@ -9,8 +9,18 @@ LEVEL_TEXT = {
     "C01": "Decides the pipeline-order, Next/End/Choice-order and status-source clauses on every handler of the current source by def-use templates; does not decide output values for all machines x inputs.",
     "C02": "Decides single-writer / who-may-call / record-shape clauses and 'exactly one continuation on every CFG path of every handler' by a path-sensitive typestate fixpoint; does not decide behaviour under late or reordered events.",
     "C03": "Decides 'no consequence after the ack' and 'every path disposes of the event id' on all CFG paths of all handlers, the shape of the ack primitive, multiple=False at every Message.acknowledge site and the pairing of pending/canceller bookkeeping; does not decide the drain/liveness clauses under arbitrary interleavings.",
+    "C09": "Decides single-appender/numbering shape, EXPRESS gating, exhaustiveness of the history event-type table against every type string that can reach it (guard-sensitive enumeration over the call graph), ExecutionStarted/StateEntered placement and 'no history in a Task.Terminated arm'; does not decide timestamps or ordering under schedules.",
+    "C14": "Decides operator-table exhaustiveness against the J2119 schema, name-to-semantics agreement of all 27 operator handlers and their typed helpers, the missing-Variable marker/flag discipline, single effective input, fnmatch metacharacter neutralisation and combinator/first-match shape; does not decide truth tables over all values.",
+    "C16": "Decides the limit constants, the strict-comparison shape and rejecting arm of all 13 enforcement points, that what is measured is the received/serialised text (not bytes, not a re-serialisation) and the must-pass-through of the state-output size test; given len() semantics the boundary clause is the operator and the constant.",
+    "C17": "Decides separator-subset-of-forbidden-class and any-position rejection from the validator's regex AST, the mint and split templates at all 5+3 sites (including region/account provenance), NAME provenance at every mint site and create_arn/parse_arn field-order agreement; does not enumerate strings.",
+    "C18": "Decides Type-table agreement schema vs engine, that the validator's early return is silent only for null (kind evaluation over 12 JSON kinds), schema bounds on fan-out loop fields, catch-all coverage of deferred callbacks and of notify's prelude, poison-arm executability, attribute-call guarding in the semantic checker and uniqueness bookkeeping order; does not decide validator/engine agreement on all machines.",
 }
 TECHNIQUE = {
+    "C09": "who-may-append + dominance on CFG + guard-sensitive string-set enumeration of event types over the call graph vs the log_dict table",
+    "C14": "schema-text table vs resolved prefix-dispatch handlers; AST templates per operator family; reaching-definition checks on the marker and parsed instants",
+    "C16": "constant folding + enumeration of every comparison against a limit constant, def-use of the measured operand, dominance of the size test over publish",
+    "C17": "regex AST (re._parser) of the name validator + AST templates and def-use at every ARN mint/split site",
+    "C18": "J2119 text tables vs engine handlers; three-valued kind evaluation of validator guards; typestate exception edges; may-raise sink coverage; guard analysis of attribute calls",
     "C01": "AST def-use templates over the state handlers (stage order, raw-input argument, defaults)",
     "C02": "who-may-write/who-may-call over the resolved call graph + path-sensitive typestate fixpoint on per-function CFGs with verified callee contracts",
     "C03": "path-sensitive typestate (ack/consequence ordering, id disposal) on CFGs + dominance checks on the ack primitive and completion paths",
